@@ -46,12 +46,8 @@ fn install_handler() {
     }
 }
 
-pub fn check_sleep(c: &SleepCase) -> CaseResult {
-    let mut rep = CaseReport::new();
-    if c.d_ns > MAX_SLEEP_NS || c.sig_us.len() > MAX_SIGNALS {
-        rep.class("outside-domain-skipped");
-        return Ok(rep);
-    }
+/// One execution of the case: (number of nanosleep calls that failed with EINTR) or the failure.
+fn attempt(c: &SleepCase) -> Result<usize, vh::runner::Failure> {
     let d = Duration::from_nanos(c.d_ns as u64);
     let mut offs: Vec<u32> = c.sig_us.iter().map(|&o| o.min(MAX_SLEEP_NS / 1000 + 5_000)).collect();
     offs.sort_unstable();
@@ -85,11 +81,11 @@ pub fn check_sleep(c: &SleepCase) -> CaseResult {
     let res = no_panic("thread::sleep", || tiny_std::thread::sleep(d));
     let elapsed = start.elapsed();
     let log = sc::verif::log_end();
-    // all signals are sent (and, being directed at this thread, handled) before the case ends
+    // all signals are sent (and, being directed at this thread, handled) before the attempt ends
     if let Some(h) = helper {
         let _ = h.join();
     }
-    let handled_during = HANDLED.load(Ordering::Relaxed) - handled_before;
+    let handled_during = HANDLED.load(Ordering::Relaxed).wrapping_sub(handled_before);
     let res = res?;
     let calls = log.iter().filter(|c| c.nr == sc::nr::NANOSLEEP).count();
     let eintr = log.iter().filter(|c| c.nr == sc::nr::NANOSLEEP && c.ret == sc::verif::neg_errno(EINTR)).count();
@@ -105,6 +101,26 @@ pub fn check_sleep(c: &SleepCase) -> CaseResult {
         format!("thread::sleep|returned-early|{shape}"),
         "sleep({d:?}) returned Ok after only {elapsed:?} ({calls} nanosleep calls, {eintr} failed with EINTR, {handled_during} signals handled)"
     );
+    Ok(eintr)
+}
+
+pub fn check_sleep(c: &SleepCase) -> CaseResult {
+    let mut rep = CaseReport::new();
+    if c.d_ns > MAX_SLEEP_NS || c.sig_us.len() > MAX_SIGNALS {
+        rep.class("outside-domain-skipped");
+        return Ok(rep);
+    }
+    // A signal planned inside the sleep can still miss it when the helper thread is scheduled
+    // late. Every attempt asserts the lower bound; the case is repeated (at most 3 attempts) only
+    // to make "this case interrupts the sleep" reproducible for shrinking and replay.
+    let planned_inside = c.sig_us.iter().any(|&o| (o as u64) * 1000 + 200_000 < c.d_ns as u64);
+    let mut eintr = attempt(c)?;
+    let mut attempts = 1;
+    while eintr == 0 && planned_inside && attempts < 3 {
+        eintr = attempt(c)?;
+        attempts += 1;
+    }
+    rep.class_if(attempts > 1, "repeated-because-signals-missed-the-sleep");
     rep.class_if(c.sig_us.is_empty(), "no-signals");
     rep.class_if(eintr == 0, "uninterrupted");
     rep.class_if(eintr == 1, "interrupted-once");
